@@ -844,6 +844,7 @@ func (s *Stage) process(file *finalFile) {
 	// defer s.logDebug("Validated:", file.name)
 
 	verifhook.Point("stage.process.begin", file.name, s.rootDir)
+	defer verifhook.Point("stage.process.end", file.name, s.rootDir)
 	fileLock := s.getPathLock(file.path)
 	fileLock.Lock()
 	defer fileLock.Unlock()
